@@ -47,6 +47,29 @@ def _build(rng):
     case["defines"] = defines
     case["define_forms"] = [rng.choice(["d", "x", "X", "b"]) for _ in defines]  # decimal, 0x lower / UPPER-case digits, 0b
     case["sub"] = rng.random() < 0.1
+    if defines and rng.random() < 0.5:
+        # an inner scope (block, named scope, macro body, loop body) defines a name of its own that coincides with a -D name:
+        # inside, the inner definition is the one that counts; the -D value stays what the rest of the program sees
+        bodies = []
+
+        def collect(stmts):
+            for st in stmts:
+                if st["k"] in ("block", "scope", "macro", "for"):
+                    bodies.append(st["b"])
+                for key in (("t", "e") if st["k"] == "if" else ("b",) if st["k"] in ("block", "scope", "macro", "for", "include") else ()):
+                    if isinstance(st.get(key), list):
+                        collect(st[key])
+                for a in st.get("args") or []:
+                    if isinstance(a, dict) and isinstance(a.get("code"), list):
+                        collect(a["code"])
+
+        collect(case["ir"])
+        if bodies:
+            body = rng.choice(bodies)
+            name = rng.choice(sorted(defines))
+            v = rng.choice([0, 3, 0x77, 0x4321, 0x654321])
+            body[:0] = [{"k": "const", "n": name, "e": ["lit", v, "x"], "eager": rng.random() < 0.6}, {"k": "data", "d": "dl", "es": [["id", name]]}]
+            case["shadowed_define"] = name
     return case
 
 
@@ -101,7 +124,7 @@ def parse_symfile(text):
 
 def run_case(case) -> Outcome:
     rom, ir, files, defines = case["rom"], case["ir"], case.get("files") or {}, case.get("defines") or {}
-    out = Outcome(evals=0, nontrivial=0, labels=[f"map:{rom}", f"defines:{len(defines)}"])
+    out = Outcome(evals=0, nontrivial=0, labels=[f"map:{rom}", f"defines:{len(defines)}"] + (["define-shadowed-inside"] if case.get("shadowed_define") else []))
     lseed = case.get("join_seed")
     lay = render.Layout(random.Random(lseed), knobs=[k for k in render.KNOBS if k != "include"] + ["join"]) if lseed is not None and lseed % 3 == 0 else None
     src, inc, _ = render.render(ir, lay)  # a third of the sources in a random layout: the front ends read them from a file
